@@ -58,9 +58,14 @@ pub fn judge(ctx: &mut Ctx, kind: Kind, edges: &[Edge], source: usize, sink: usi
     let verts: BTreeSet<usize> = eff.iter().flat_map(|&(v, w)| [v, w]).collect();
     // domain: distinct terminals, both incident to an edge, simple graph (no self loops),
     // and for vertex cuts no source->sink edge
-    if source == sink || !verts.contains(&source) || !verts.contains(&sink) || eff.iter().any(|&(v, w)| v == w) {
+    // domain: distinct terminals, simple graph (no self loops). A terminal that occurs in no edge is an isolated
+    // vertex of the graph: the empty cut separates, and the reachable set is judged like any other.
+    if source == sink || eff.iter().any(|&(v, w)| v == w) {
         ctx.out_of_domain("terminal-or-loop");
         return false;
+    }
+    if !verts.contains(&source) || !verts.contains(&sink) {
+        ctx.count("queries_with_an_isolated_terminal");
     }
     if kind.vertex() && eff.contains(&(source, sink)) {
         ctx.out_of_domain("source-sink-edge");
@@ -78,6 +83,8 @@ pub fn judge(ctx: &mut Ctx, kind: Kind, edges: &[Edge], source: usize, sink: usi
     let shape = (digest(&(edges, source, sink)) % shapes::INPUT_SHAPES as u64) as usize;
     ctx.count(&format!("input_shape.{}", shapes::input_shape_name(shape)));
     let e = shapes::shaped(edges, shape);
+    // bounded progress: a cut query on a graph of this size takes microseconds; 30 s of CPU time is the budget
+    let _in_flight = if edges.len() <= 5000 { Some(crate::monitor::in_flight(kind.name(), 30, || input().to_string())) } else { None };
     if !kind.vertex() {
         let r = observe(|| match kind {
             Kind::EdgeDirected => min_edge_cut(e, source, sink),
@@ -169,13 +176,13 @@ const KINDS: [Kind; 4] = [Kind::EdgeDirected, Kind::EdgeUndirected, Kind::Vertex
 pub fn run(cfg: &Cfg) -> Report {
     let mut report = Report::new(cfg);
     // abandoned / out-of-domain calls between judged cases: an edge iterator that gives up half way, a query
-    // whose terminals coincide or do not occur in the graph
+    // whose sink does not occur in the graph
     crate::monitor::set_poison(|k| {
         let edges: Vec<Edge> = vec![(0, 1), (1, 2), (0, 3), (3, 2), (1, 3), (2, 4)];
         match k % 4 {
             0 => { let _ = min_edge_cut(shapes::panicking(&edges, 1 + (k as usize / 4) % 5), 0, 4); }
             1 => { let _ = min_vertex_cut_undirected(shapes::panicking(&edges, 2 + (k as usize / 4) % 4), 0, 4); }
-            2 => { let _ = min_edge_cut_undirected(edges.clone(), 2, 2); }
+            2 => { let _ = min_edge_cut_undirected(shapes::panicking(&edges, 3), 2, 4); }
             _ => { let _ = min_vertex_cut(edges.clone(), 0, 9); }
         }
     });
@@ -243,6 +250,29 @@ pub fn run(cfg: &Cfg) -> Report {
             t = edges.iter().flat_map(|&(v, w)| [v, w]).find(|&x| x != s).unwrap();
         }
         let kind = KINDS[k % 4];
+        // a terminal that occurs in no edge (isolated vertex)
+        let (s, t) = if rng.chance(1, 12) {
+            let fresh = edges.iter().flat_map(|&(v, w)| [v, w]).max().unwrap() + 1 + rng.below(3);
+            if rng.chance(1, 2) { (s, fresh) } else { (fresh, t) }
+        } else {
+            (s, t)
+        };
+        // extreme vertex names (edge cuts only: a vertex cut splits every vertex into two names, so names close
+        // to usize::MAX are not representable there): a name must be nothing but a name
+        let (edges, s, t) = if !kind.vertex() && rng.chance(1, 5) {
+            let names: Vec<usize> = edges.iter().flat_map(|&(v, w)| [v, w]).collect::<BTreeSet<_>>().into_iter().collect();
+            let victim = names[rng.below(names.len())];
+            let extreme = *rng.pick(&[usize::MAX, usize::MAX, usize::MAX - 1, 1usize << 63, (1usize << 32) + 1]);
+            if names.contains(&extreme) {
+                (edges, s, t)
+            } else {
+                ctx.count("random_graphs_with_an_extreme_vertex_name");
+                let f = |x: usize| if x == victim { extreme } else { x };
+                (edges.iter().map(|&(v, w)| (f(v), f(w))).collect::<Vec<Edge>>(), f(s), f(t))
+            }
+        } else {
+            (edges, s, t)
+        };
         if judge(ctx, kind, &edges, s, t, false, "random") {
             ctx.nontrivial(digest(&("rnd", seed, k)));
         }
